@@ -451,6 +451,9 @@ type streamReaderWithConvert[T any] struct {
 	convert func(any) (T, error)
 
 	errWrapper func(error) error
+
+	// panicked: the convert function has panicked; the panic was delivered as an error item
+	panicked bool
 }
 
 type convertOptions struct {
@@ -510,6 +513,13 @@ func StreamReaderWithConvert[T, D any](sr *StreamReader[T], convert func(T) (D, 
 
 func (srw *streamReaderWithConvert[T]) recv() (T, error) {
 	for {
+		if srw.panicked {
+			// like the forwarding goroutine (toStream): a panic of the convert function is reported as
+			// one error item and ends the stream
+			var t T
+			return t, io.EOF
+		}
+
 		out, err := srw.sr.recvAny()
 
 		if err != nil {
@@ -537,6 +547,7 @@ func (srw *streamReaderWithConvert[T]) recv() (T, error) {
 func (srw *streamReaderWithConvert[T]) safeConvert(in any) (t T, err error) {
 	defer func() {
 		if panicErr := recover(); panicErr != nil {
+			srw.panicked = true
 			err = safe.NewPanicErr(panicErr, debug.Stack()) // nolint: byted_returned_err_should_do_check
 		}
 	}()
